@@ -173,6 +173,7 @@ kern0_harness!(c05_kern_format0_3pairs, 3);
 /// kerning) and the value is the FWORD at leftClassValue + rightClassValue within the
 /// kerning array, as the crate documents it; an address outside the array is None.
 // @bound kern table with one format 2 subtable: 2 left and 2 right glyphs, 2x2 kerning array, all class values, first glyphs and kerning values symbolic; query pair any (u16, u16)
+// @release
 #[kani::proof]
 #[kani::unwind(8)]
 fn c05_kern_format2() {
